@@ -198,7 +198,7 @@ def ctl_case_handshake (rig, case, rep, fire):
       n += 1
       P["s"].send(marker_pi(n)); sib[id(P["c"])].append(n)
   def run_budget (nbytes):
-    rig.budget.arm(400 + 60 * nbytes)
+    rig.budget.arm(400 + 15 * nbytes)
     rep.count("budget_armed")
     try:
       w.run(max_steps=400)
@@ -255,10 +255,20 @@ def ctl_case_handshake (rig, case, rep, fire):
       return
   if not closed:
     # finish the handshake; traffic behind it must then come through
+    rig.budget.arm(6000)
+    rep.count("budget_armed")
     try:
       rig.finish_peer(X, strict=False)
     except Exception as e:
-      fire("exception while completing a handshake after hostile input", repr(e))
+      if not rig.budget.tripped:
+        fire("exception while completing a handshake after hostile input", repr(e))
+        return
+    finally:
+      rig.budget.disarm()
+    if rig.budget.tripped:
+      fire("processing does not terminate (controller read loop, during "
+           "the handshake)", "step budget exceeded at %s while the handshake was "
+           "being completed after the hostile bytes" % rig.budget.where)
       return
     closed = X["c"].closed or X["c"].shut_rd
     xc = rig.cons.get(id(X["c"]))
@@ -348,7 +358,7 @@ def ctl_case (rig, case, rep, fire):
       n += 1
       P["s"].send(marker_pi(n)); sib[id(P["c"])].append(n)
   def run_budget (nbytes):
-    rig.budget.arm(400 + 60 * nbytes)
+    rig.budget.arm(400 + 15 * nbytes)
     rep.count("budget_armed")
     try:
       w.run(max_steps=400)
@@ -502,7 +512,7 @@ def sw_case (rig, case, rep, fire):
       n += 1
       P["peer"].send(marker_echo(n)); sib[i].append(n)
   def run_budget (nbytes):
-    rig.budget.arm(400 + 60 * nbytes)
+    rig.budget.arm(400 + 15 * nbytes)
     rep.count("budget_armed")
     try:
       w.run(max_steps=400)
